@@ -30,7 +30,7 @@ LEVEL_NOTE = "Tolerance 2e-5 relative (float32 fields accumulate u += dU over up
 RULE = ("case = one layout (frame positions in steps, file partition, start, stop, direction, scalars, packing). Non-trivial: the run passes at least one frame step after the "
         "start (a hand-over happens); distinct by (positions, partition, start, stop, direction).")
 MANDATORY = ["forward", "reversed", "spacing_equals_dt", "irregular_spacing", "one_frame_per_file", "file_entered_in_middle", "start_on_frame", "start_between_frames",
-             "scalar_fields", "packed", "handover_steps_observed", "probe_steps", "reads_checked", "first_read_straddles_files", "time_units_hours_or_days"]
+             "scalar_fields", "packed", "handover_steps_observed", "probe_steps", "reads_checked", "first_read_straddles_files", "time_units_hours_or_days", "packed_per_file_parameters"]
 ASSUMPTIONS = ["frames on the model time grid, strictly increasing, covering [start, stop] (as the property quantifies)"]
 TIMEOUT = {"quick": 900, "thorough": 3000}
 PROBE = str(VERIF / "vmon" / "plugins" / "probe_ibm.py")
@@ -83,7 +83,7 @@ def rand_layout(rng, idx: int) -> dict[str, Any]:
             S = int(rng.choice(P[1:]))
         E = int(rng.integers(P[0], S))
     nsc = int(rng.choice([0, 1, 2]))
-    return dict(P=P, files=files, S=S, E=E, reversed=rev, nscalars=nsc, packed=bool(rng.random() < 0.25), dt=int(rng.choice([60, 600, 3600])), salt=idx)
+    return dict(P=P, files=files, S=S, E=E, reversed=rev, nscalars=nsc, packed=bool(rng.random() < 0.4), dt=int(rng.choice([60, 600, 3600])), salt=idx)
 
 
 def compositions(n: int):
@@ -151,6 +151,11 @@ def run_case(case: dict[str, Any], wd: Path) -> dict[str, Any]:
         w["pack"] = {"u": 1.0e-4, "v": 1.0e-4}
         for name in scal_vals:
             w["pack"][name] = (0.05, 500.0)
+        if len(files) > 1 and case["salt"] % 2 == 0:
+            # every file packed with its own parameters (as per-file ncpdq packing gives), some files not packed at all
+            w["pack_per_file"] = [dict(u=1.0e-4, v=2.0e-4, **{n: (0.05, 500.0) for n in scal_vals}),
+                                  dict(u=2.5e-4, v=5.0e-5, **{n: (0.1, 300.0) for n in scal_vals}),
+                                  dict(u=5.0e-5, v=1.0e-4, **{n: (0.02, 700.0) for n in scal_vals})]
     start = str(tadd(t0, S * dt))
     stop = str(tadd(t0, E * dt))
     st_i = {name: "float" for name in scal_vals}
@@ -198,6 +203,7 @@ def run_case(case: dict[str, Any], wd: Path) -> dict[str, Any]:
     sit["start_between_frames"] = int(S not in P)
     sit["scalar_fields"] = int(case["nscalars"] > 0)
     sit["packed"] = int(case["packed"])
+    sit["packed_per_file_parameters"] = int("pack_per_file" in w)
     sit["time_units_hours_or_days"] = int("time_units" in w)
     # first frame read (prestep) in the middle of a file?
     pre = max([s for s in step_of_frame if s < 0], default=0)
